@@ -143,6 +143,30 @@ func checkC09(p *Program, r *Report) {
 				fname = fname + " through " + funcName(callee)
 			}
 		}
+		// the body must not run under a recover handler of the very function that runs the deferred calls after it: a Go panic
+		// in the body jumps to that handler and the function returns without the deferred calls having run
+		underOwnRecover := ""
+		for _, b := range fn.Blocks {
+			for _, in := range b.Instrs {
+				d, ok := in.(*ssa.Defer)
+				if !ok {
+					continue
+				}
+				if t := deferTarget(d); t != nil && callsRecover(t) && (instrDominates(d, body) || reachable(d.Block(), nil)[body.Block()]) {
+					underOwnRecover = p.Pos(d.Pos())
+				}
+			}
+		}
+		if underOwnRecover != "" {
+			// only a defect when the runner is called in this same function after the body
+			for _, b := range fn.Blocks {
+				for _, in := range b.Instrs {
+					if c, ok := in.(*ssa.Call); ok && staticCallee(c) == runner && len(c.Call.Args) > 0 && c.Call.Args[0] == base {
+						r.Fail("C09.R1", fname+"|runs-defers after a panic", p.Pos(c.Pos()), "the body and the call of the deferred-call runner stand under one recover handler (installed at "+underOwnRecover+"): a Go panic raised in the body is recovered after the runner was skipped - the deferred calls of that invocation never run")
+					}
+				}
+			}
+		}
 		var guard *ssa.BasicBlock
 		for _, b := range fn.Blocks {
 			if iff, ok := b.Instrs[len(b.Instrs)-1].(*ssa.If); ok && m.isDefersNonEmptyTest(iff.Cond, base) {
